@@ -560,6 +560,20 @@ fn deep_inputs(depth: usize) -> Vec<(String, String)> {
     ("in-tests".into(), format!("1 in {}1{}", rep("(", d), rep(")", d))),
     ("range-nest".into(), format!("{}1..2{}", rep("[", d), rep("]", d))),
     ("instance-of".into(), format!("1 instance of {}number{}", rep("list<", d), rep(">", d))),
+    // deeply nested *values* under the operations that look at the type or the shape of a value
+    ("lists-instance-of".into(), format!("{}1{} instance of list<number>", rep("[", d), rep("]", d))),
+    ("lists-instance-of-deep-type".into(), format!("{}1{} instance of {}number{}", rep("[", d), rep("]", d), rep("list<", d), rep(">", d))),
+    ("lists-typed-parameter".into(), format!("(function(x: list<number>) 1)({}1{})", rep("[", d), rep("]", d))),
+    ("lists-equal".into(), format!("{}1{} = {}1{}", rep("[", d), rep("]", d), rep("[", d), rep("]", d))),
+    ("lists-in".into(), format!("{}1{} in [{}1{}]", rep("[", d), rep("]", d), rep("[", d), rep("]", d))),
+    ("lists-string".into(), format!("string({}1{})", rep("[", d), rep("]", d))),
+    ("lists-flatten".into(), format!("flatten({}1{})", rep("[", d), rep("]", d))),
+    ("lists-distinct".into(), format!("distinct values([{}1{}, {}1{}])", rep("[", d), rep("]", d), rep("[", d), rep("]", d))),
+    ("lists-index-of".into(), format!("index of([{}1{}], {}1{})", rep("[", d), rep("]", d), rep("[", d), rep("]", d))),
+    ("contexts-instance-of".into(), format!("{}1{} instance of context<a: number>", rep("{a: ", d), rep("}", d))),
+    ("contexts-equal".into(), format!("{}1{} = {}1{}", rep("{a: ", d), rep("}", d), rep("{a: ", d), rep("}", d))),
+    ("contexts-typed-parameter".into(), format!("(function(x: context<a: number>) 1)({}1{})", rep("{a: ", d), rep("}", d))),
+    ("lists-of-two-instance-of".into(), format!("{}1{} instance of list<Any>", rep("[1, ", d), rep("]", d))),
     ("name-parts".into(), rep("a ", d)),
     ("name-symbols".into(), format!("a{}", rep("-a", d))),
     ("unicode-escapes".into(), format!("\"{}\"", rep("\\uD83D\\uDC0E", d))),
